@@ -90,6 +90,19 @@ CHECKS = {
                      "materialised input; every coefficient (chain rule to gama's internal, possibly y-flipped, axes), the orientation coefficient, the "
                      "index assignment (bijection, y follows x) and the right-hand side are compared to 1e-9.",
                 note="trusted: factor 2000/pi (rad/m -> cc/mm), textbook observation values; vector / observed-coordinate rows only through C06/C07/C13", ref="8/C05"),
+    "C10": dict(cat="exploration", technique="exact weights from TLC (API + gama-local) + paired-variant laws + cluster-level malformed matrices",
+                text="Problems with banded / full covariance blocks (incl. wide band blocks dim 6..8) are solved by every entry point and, as levelling "
+                     "networks, through gama-local; the solution must satisfy the normal equations with the exact inverse covariance from TLC. Laws on "
+                     "paired inputs: diagonal cov-mat == per-observation sigma; a blundered observation inside a correlated cluster is excluded and the "
+                     "result equals the input with the observation deleted and the sub-matrix written explicitly (activeCov). Malformed matrices of "
+                     "GkfClusters.tla must be refused with a located diagnostic.",
+                note="trusted: as C01; exclusion is provoked through tol-abs (5 m blunder)", ref="8/C10"),
+    "C14": dict(cat="exploration", technique="TLC-generated Blunder/Isolate sessions; exclusion <=> misclosure > tol-abs; Exclude == Delete law",
+                text="Blunder(obs, pct, tol) of SurveySession.tla gives one observation of a consistent, maximally redundant template network a positional "
+                     "misclosure of 99, 101 or 300 % of tol-abs (1, 10, 1000 mm): it must be excluded exactly when pct > 100, be listed under the outlying "
+                     "absolute terms, and the result must equal that of the input with the observation deleted. Isolate adds a point with a single "
+                     "determining element: it must be removed, not adjusted, and be reported.",
+                note="direction sets with fewer than two targets and points without coordinates are covered through C06/C20 sessions only", ref="8/C14"),
 }
 
 NOT_APPLICABLE = []
